@@ -876,3 +876,128 @@ func ruleSizesCountedPerVoxel(r *Run) {
 	}
 	r.check(n >= 4, "labels:size-arithmetic", fmt.Sprintf("%d", n), "too few found: rule needs review", "-")
 }
+
+func init() {
+	register(ruleDef{ID: "R10.14", Prop: "C10", Tier: "quick", Floor: 4,
+		Title: "a run starts at the voxel it names: in the split functions of the labels package the array index at which a run's loop starts is a sum of products of the run's start point and the block's Size in which the x term carries no size, the y term exactly Size[0] and the z term exactly Size[0] and Size[1] (a y stride of Size[1] relabels the wrong voxels of every non-cubic block, and the statistics pass and the split pass disagree)",
+		Fn:    ruleRunStartStrides})
+}
+
+func ruleRunStartStrides(r *Run) {
+	w := r.W
+	n := 0
+	for li, rl := range c10RunLoops(w) {
+		f := rl.f
+		// the value the index has on entering the loop
+		var start ssa.Value
+		for i, e := range rl.idx.Edges {
+			if !rl.set[rl.header.Preds[i]] {
+				start = e
+			}
+		}
+		if start == nil {
+			continue
+		}
+		classify := func(v ssa.Value) (string, int64) {
+			v = stripConv(v)
+			var base ssa.Value
+			axis := int64(-1)
+			switch x := v.(type) {
+			case *ssa.Index:
+				base = x.X
+				if c, ok := constInt(x.Index); ok {
+					axis = c
+				}
+			case *ssa.UnOp:
+				if ia, ok := x.X.(*ssa.IndexAddr); ok {
+					base = ia.X
+					if c, ok := constInt(ia.Index); ok {
+						axis = c
+					}
+				}
+			}
+			if base == nil || axis < 0 {
+				return "other", -1
+			}
+			// the block's Size field?
+			if fa, ok := base.(*ssa.FieldAddr); ok {
+				if nm, _, _ := fieldName(fa); nm == "Size" {
+					return "size", axis
+				}
+			}
+			for d := range dataDeps(base) {
+				switch x := d.(type) {
+				case *ssa.FieldAddr:
+					if nm, _, _ := fieldName(x); nm == "Size" {
+						return "size", axis
+					}
+				case *ssa.Field:
+					if st, ok := x.X.Type().Underlying().(*types.Struct); ok && st.Field(x.Field).Name() == "Size" {
+						return "size", axis
+					}
+				case *ssa.Call:
+					if methodNameOf(x) == "StartPt" {
+						return "coord", axis
+					}
+				}
+			}
+			return "other", -1
+		}
+		var expand func(v ssa.Value, depth int) [][]ssa.Value
+		expand = func(v ssa.Value, depth int) [][]ssa.Value {
+			v = stripConv(v)
+			if depth > 12 {
+				return [][]ssa.Value{{v}}
+			}
+			if bo, ok := v.(*ssa.BinOp); ok {
+				switch bo.Op {
+				case token.ADD:
+					return append(expand(bo.X, depth+1), expand(bo.Y, depth+1)...)
+				case token.MUL:
+					var out [][]ssa.Value
+					for _, a := range expand(bo.X, depth+1) {
+						for _, b := range expand(bo.Y, depth+1) {
+							out = append(out, append(append([]ssa.Value{}, a...), b...))
+						}
+					}
+					return out
+				}
+			}
+			return [][]ssa.Value{{v}}
+		}
+		coords := 0
+		bad := ""
+		for _, m := range expand(start, 0) {
+			caxis := int64(-1)
+			var sizes []int64
+			for _, a := range m {
+				kind, ax := classify(a)
+				switch kind {
+				case "coord":
+					caxis = ax
+				case "size":
+					sizes = append(sizes, ax)
+				}
+			}
+			if caxis < 0 {
+				continue
+			}
+			coords++
+			sort.Slice(sizes, func(i, j int) bool { return sizes[i] < sizes[j] })
+			var want []int64
+			for a := int64(0); a < caxis; a++ {
+				want = append(want, a)
+			}
+			if fmt.Sprint(sizes) != fmt.Sprint(want) {
+				bad = fmt.Sprintf("the term of start component %d is multiplied by Size components %v, expected %v", caxis, sizes, want)
+			}
+		}
+		if coords < 3 {
+			continue
+		}
+		n++
+		r.check(bad == "", fmt.Sprintf("%s:run-loop#%d:start-index-strides", fname(f), li+1), "x carries no size, y Size[0], z Size[0]·Size[1]",
+			"the array index at which a run starts uses a wrong stride ("+bad+"): in a block whose x and y extents differ the run is applied to other voxels than the ones it names", w.pos(blockPos(rl.header)))
+	}
+	r.check(n >= 4, "labels:run-start-indices", fmt.Sprintf("%d", n), "too few found: rule needs review", "-")
+}
